@@ -1,9 +1,12 @@
 import OmbottModel.Model.Router
+import OmbottModel.Py.IntLim
 /-!
 Reference semantics of the built-in route filters `int`, `float`, `path`
 (`FilterFactory.filters`), written from their documentation, not from the regular expressions:
 
-* `int`   — optional `-`, then decimal digits; the value is that integer;
+* `int`   — optional `-`, then decimal digits; the value is that integer — when the interpreter
+  converts it: a run of more than `Gen.intMaxStrDigits` digits is rejected by `int()` and the filter
+  does not match (since be98856; a 500 before);
 * `float` — optional `-`, digits, optionally `.` and digits; the value is `float(text)`;
 * `path`  — followed by literal text `L` in the rule: the longest non-empty prefix of the remaining
   path that is followed by `L` taken literally; at the end of the rule: the whole non-empty rest.
@@ -44,7 +47,7 @@ def pathText (conf s : Str) : Option Str :=
 matched text otherwise -/
 def builtin (filter conf text : Str) : Option (Str × Nat) :=
   if filter == "int".toList then
-    (intText text).bind fun m => (pyInt m).map fun v => (intStr v, m.length)
+    (intText text).bind fun m => (pyIntLim m).map fun v => (intStr v, m.length)
   else if filter == "float".toList then (floatText text).map fun m => (m, m.length)
   else if filter == "path".toList then (pathText conf text).map fun m => (m, m.length)
   else none
